@@ -130,7 +130,14 @@ def run_case(ck, rng, stats, samples):
     if action == 'addhdr':
         # add-header strings are not expanded at parse time: a default macro there is an error and would be unused
         templates = [templates[0].replace(b'${mac}', b'mac')]
-    cond_text = b' and '.join(b'header "%s" /%s/%s' % (n, p, f) for n, p, f in conds)
+    # conditions that are not patterns (and hold) between and after the pattern conditions: they must not shift \\M.N
+    fillers = [b'date modified < 1 hours', b'new', b'all', b'! old', b'date created < 2 days', b'( all or new )']
+    parts = []
+    for ci, (n, p, f) in enumerate(conds):
+        parts.append(b'header "%s" /%s/%s' % (n, p, f))
+        if rng.randrange(3) == 0:
+            parts.append(rng.choice(fillers))
+    cond_text = b' and '.join(parts)
     strs = b' '.join(mdrun.conf_quote(t) for t in templates)
     uses_m1 = any(b'${mac}' in t for t in templates)
     pre = (b'mac = "%s"\n' % (b'file value' if use_D else m1)) if uses_m1 else b''
@@ -270,7 +277,7 @@ def run(ck):
     ck.coverage.update({
         'evaluations': stats['runs'],
         'distinct_nontrivial': stats['nontrivial'],
-        'rule': 'rules with 1-4 header pattern conditions (5 pattern shapes with capture groups, flags i/l/u) over header values from an alphabet containing '
+        'rule': 'rules with 1-4 header pattern conditions, interleaved in a third of the positions with conditions that are not patterns (date modified / created, new, all, ! old) (5 pattern shapes with capture groups, flags i/l/u) over header values from an alphabet containing '
                 '\\\\ digits . $ { } and ready-made \\\\1, \\\\0.1, ${path}, ${mac}; 1-3 templates mixing literals, \\\\N, \\\\M.N, \\\\N\\\\., ${path}, ${mac} '
                 '(-D override in a third of the cases); action exec / command / label / add-header; non-trivial = the rule fires and the reference '
                 'interpolation succeeds; counted per run',
